@@ -14,7 +14,7 @@ Modelling notes
 import z3
 
 from . import pseudo as P
-from .pseudo import BV, bv, bits, bit, zx, sx, cat
+from .pseudo import BV, bv, bits, zx, cat
 from .isa import (Enc, any_of, in_it_block, last_in_it_block, mem_u_read, mem_u_write, unaligned_support, aborted, _b)
 from .state import St, C_
 
@@ -35,7 +35,9 @@ def load_word(S, t, data, address, ok):
         val = data
         S.unpredictable(z3.And(ok, tt != 15, z3.Not(plain)))  # R[t] = bits(32) UNKNOWN
     else:
-        val = z3.If(plain, data, z3.RotateRight(data, zx(bits(address, 1, 0), 32) * 8))
+        # ROR(data, 8*UInt(address<1:0>)) written as in A2.2.1: LSR(x, m) OR LSL(x, N-m)
+        m = zx(bits(address, 1, 0), 32) * 8
+        val = z3.If(plain, data, z3.LShR(data, m) | (data << (BV(32, 32) - m)))
     T = S.copy()
     T.unpredictable(z3.Not(al))
     T.load_write_pc(data)
@@ -245,14 +247,34 @@ for name, load, size, opc in (('StrRegisterT1', False, 4, '000'), ('StrbRegister
 # ===========================================================================
 # Thumb 32-bit
 # ===========================================================================
+# The "1 P U W imm8" forms with P == 0 && W == 0 are UNDEFINED by the encoding's pseudocode.  The repository's
+# Thumb decode tables treat that pattern as unallocated (no class is selected; the Undefined Instruction exception
+# is taken by the dispatcher), so the H-step claim "decoder selects <class>" cannot hold there.  The pattern is
+# therefore kept out of the class rows (guard) and checked by the auxiliary rows <class>_P0W0 (family
+# 'ls_wb_undef'), to be run with '"expect_class": false'.
+FAM_UND = 'ls_wb_undef'
+
+
+def not_p0w0(f):
+    return z3.Not(z3.And(f['P'] == 0, f['W'] == 0))
+
+
+def undef_p0w0_row(name, diagram):
+    """the P == 0 && W == 0 pattern of a '1 P U W imm8' encoding: UNDEFINED (loads: unless Rn == 1111, which is
+    the literal form and has no such pattern)"""
+    Enc(name + '_P0W0', 'T32', diagram.replace(' P U W ', ' 0 U 0 '), family=FAM_UND,
+        guard=(lambda f: f['Rn'] != 15) if diagram.split()[5] == '1' else None,
+        undefined=lambda f, S: True, sem=lambda S, f: None,
+        notes='run with expect_class=false: the decoder selects no class for this pattern')
+
+
 # --- LDR
 Enc('LdrImmediateThumbT3', 'T32', '11111 000 1 1 0 1 Rn Rt imm12', family=FAM, guard=lambda f: f['Rn'] != 15,
     unpred=lambda f, S: pc_not_last_in_it(f, S),
     sem=ls_sem(True, 4, fld('Rn'), fld('Rt'), imm('imm12')))
 Enc('LdrImmediateThumbT4', 'T32', '11111 000 0 1 0 1 Rn Rt 1 P U W imm8', family=FAM,
-    guard=lambda f: z3.And(f['Rn'] != 15, not_unpriv_thumb(f),
+    guard=lambda f: z3.And(f['Rn'] != 15, not_unpriv_thumb(f), not_p0w0(f),
                            z3.Not(z3.And(f['Rn'] == 13, f['P'] == 0, f['U'] == 1, f['W'] == 1, f['imm8'] == 4))),
-    undefined=lambda f, S: z3.And(f['P'] == 0, f['W'] == 0),
     unpred=lambda f, S: z3.Or(z3.And(f['W'] == 1, f['Rn'] == f['Rt']), pc_not_last_in_it(f, S)),
     sem=ls_sem(True, 4, fld('Rn'), fld('Rt'), imm('imm8'), index=P_, add=U_, wback=lambda f: f['W'] == 1))
 Enc('LdrLiteralT2', 'T32', '11111 000 U 1 0 1 1111 Rt imm12', family=FAM,
@@ -273,8 +295,7 @@ Enc('LdrbImmediateThumbT2', 'T32', '11111 000 1 0 0 1 Rn Rt imm12', family=FAM,
     sem=ls_sem(True, 1, fld('Rn'), fld('Rt'), imm('imm12')))
 Enc('LdrbImmediateThumbT3', 'T32', '11111 000 0 0 0 1 Rn Rt 1 P U W imm8', family=FAM,
     guard=lambda f: z3.And(z3.Not(z3.And(f['Rt'] == 15, f['P'] == 1, f['U'] == 0, f['W'] == 0)), f['Rn'] != 15,
-                           not_unpriv_thumb(f)),
-    undefined=lambda f, S: z3.And(f['P'] == 0, f['W'] == 0),
+                           not_unpriv_thumb(f), not_p0w0(f)),
     unpred=lambda f, S: z3.Or(f['Rt'] == 13, z3.And(f['Rt'] == 15, f['W'] == 1),
                               z3.And(f['W'] == 1, f['Rn'] == f['Rt'])),
     sem=ls_sem(True, 1, fld('Rn'), fld('Rt'), imm('imm8'), index=P_, add=U_, wback=lambda f: f['W'] == 1))
@@ -291,15 +312,14 @@ Enc('LdrbtT1', 'T32', '11111 000 0 0 0 1 Rn Rt 1 110 imm8', family=FAM, guard=la
 
 # --- STR / STRB   (Rn == 1111 is UNDEFINED)
 und_rn_pc = lambda f, S: f['Rn'] == 15
-und_rn_pc_or_p0w0 = lambda f, S: z3.Or(f['Rn'] == 15, z3.And(f['P'] == 0, f['W'] == 0))
 
 Enc('StrImmediateThumbT3', 'T32', '11111 000 1 1 0 0 Rn Rt imm12', family=FAM, undefined=und_rn_pc,
     unpred=lambda f, S: f['Rt'] == 15,
     sem=ls_sem(False, 4, fld('Rn'), fld('Rt'), imm('imm12')))
 Enc('StrImmediateThumbT4', 'T32', '11111 000 0 1 0 0 Rn Rt 1 P U W imm8', family=FAM,
-    guard=lambda f: z3.And(not_unpriv_thumb(f),
+    guard=lambda f: z3.And(not_unpriv_thumb(f), not_p0w0(f),
                            z3.Not(z3.And(f['Rn'] == 13, f['P'] == 1, f['U'] == 0, f['W'] == 1, f['imm8'] == 4))),
-    undefined=und_rn_pc_or_p0w0,
+    undefined=und_rn_pc,
     unpred=lambda f, S: z3.Or(f['Rt'] == 15, z3.And(f['W'] == 1, f['Rn'] == f['Rt'])),
     sem=ls_sem(False, 4, fld('Rn'), fld('Rt'), imm('imm8'), index=P_, add=U_, wback=lambda f: f['W'] == 1))
 Enc('StrRegisterT2', 'T32', '11111 000 0 1 0 0 Rn Rt 0 00000 imm2 Rm', family=FAM, undefined=und_rn_pc,
@@ -312,8 +332,8 @@ Enc('StrtT1', 'T32', '11111 000 0 1 0 0 Rn Rt 1 110 imm8', family=FAM, undefined
 Enc('StrbImmediateThumbT2', 'T32', '11111 000 1 0 0 0 Rn Rt imm12', family=FAM, undefined=und_rn_pc,
     unpred=lambda f, S: badreg(f['Rt']),
     sem=ls_sem(False, 1, fld('Rn'), fld('Rt'), imm('imm12')))
-Enc('StrbImmediateThumbT3', 'T32', '11111 000 0 0 0 0 Rn Rt 1 P U W imm8', family=FAM, guard=not_unpriv_thumb,
-    undefined=und_rn_pc_or_p0w0,
+Enc('StrbImmediateThumbT3', 'T32', '11111 000 0 0 0 0 Rn Rt 1 P U W imm8', family=FAM,
+    guard=lambda f: z3.And(not_unpriv_thumb(f), not_p0w0(f)), undefined=und_rn_pc,
     unpred=lambda f, S: z3.Or(badreg(f['Rt']), z3.And(f['W'] == 1, f['Rn'] == f['Rt'])),
     sem=ls_sem(False, 1, fld('Rn'), fld('Rt'), imm('imm8'), index=P_, add=U_, wback=lambda f: f['W'] == 1))
 Enc('StrbRegisterT2', 'T32', '11111 000 0 0 0 0 Rn Rt 0 00000 imm2 Rm', family=FAM, undefined=und_rn_pc,
@@ -322,3 +342,9 @@ Enc('StrbRegisterT2', 'T32', '11111 000 0 0 0 0 Rn Rt 0 00000 imm2 Rm', family=F
 Enc('StrbtT1', 'T32', '11111 000 0 0 0 0 Rn Rt 1 110 imm8', family=FAM, undefined=und_rn_pc,
     unpred=lambda f, S: badreg(f['Rt']),
     sem=ls_sem(False, 1, fld('Rn'), fld('Rt'), imm('imm8'), unpriv=True))
+
+for _n, _d in (('LdrImmediateThumbT4', '11111 000 0 1 0 1 Rn Rt 1 P U W imm8'),
+               ('LdrbImmediateThumbT3', '11111 000 0 0 0 1 Rn Rt 1 P U W imm8'),
+               ('StrImmediateThumbT4', '11111 000 0 1 0 0 Rn Rt 1 P U W imm8'),
+               ('StrbImmediateThumbT3', '11111 000 0 0 0 0 Rn Rt 1 P U W imm8')):
+    undef_p0w0_row(_n, _d)
